@@ -258,8 +258,8 @@ func hErrs(errs []error) string {
 	return s
 }
 
-// HTB2: the walker and the dump on the composite schema used to validate them natively.
-func HTB2() {
+// hComposite loads the composite schema used to validate the oracles natively (DESIGN App. E).
+func hComposite() *Modules {
 	ms, lerrs := hLoad(`module b { namespace "urn:b"; prefix b; include bs;
   grouping g { container gc { leaf gl { type string; } list gli { key k; leaf k { type string; } } } }
   container c { config false; leaf l1 { type string; } container d { config true; leaf l2 { type string; } uses g; }
@@ -281,6 +281,14 @@ func HTB2() {
   augment /bb:li { leaf augli { config false; type string; } }
   container own { uses g2:h; }
 }`, `module g2 { namespace "urn:g2"; prefix g2; grouping h { container hc { leaf hl { type string; } } } }`)
+	check(len(lerrs) == 0, "composite parses")
+	return ms
+}
+
+// HTB2: the walker and the dump on the composite schema.
+func HTB2() {
+	ms := hComposite()
+	var lerrs []error
 	check(len(lerrs) == 0, "parse ok")
 	errs := ms.Process()
 	check(len(errs) == 0, "process ok")
@@ -299,4 +307,11 @@ func hErrorSortStub(errors []error) []error {
 		return nil
 	}
 	return errors
+}
+
+// HTB3: HTB2 ten times (interpreter profiling aid).
+func HTB3() {
+	for i := 0; i < 10; i++ {
+		HTB2()
+	}
 }
